@@ -122,6 +122,9 @@ pub enum Val {
     Str(Vec<u8>),
     List(VecDeque<Vec<u8>>),
     Hash(BTreeMap<Vec<u8>, Vec<u8>>),
+    Set(std::collections::BTreeSet<Vec<u8>>),
+    /// member -> score
+    ZSet(BTreeMap<Vec<u8>, i64>),
 }
 
 #[derive(Debug, Clone)]
@@ -196,6 +199,19 @@ fn dump_val(v: &Val) -> Vec<u8> {
                 put(&mut out, v);
             }
         }
+        Val::Set(m) => {
+            out.push(0xA4);
+            for k in m {
+                put(&mut out, k);
+            }
+        }
+        Val::ZSet(z) => {
+            out.push(0xA5);
+            for (k, sc) in z {
+                put(&mut out, k);
+                put(&mut out, sc.to_string().as_bytes());
+            }
+        }
     }
     out
 }
@@ -220,6 +236,15 @@ fn load_val(b: &[u8]) -> Option<Val> {
                 h.insert(k, v);
             }
             Some(Val::Hash(h))
+        }
+        0xA4 => Some(Val::Set(items.into_iter().collect())),
+        0xA5 => {
+            let mut z = BTreeMap::new();
+            let mut it = items.into_iter();
+            while let (Some(k), Some(v)) = (it.next(), it.next()) {
+                z.insert(k, std::str::from_utf8(&v).ok()?.parse::<i64>().ok()?);
+            }
+            Some(Val::ZSet(z))
         }
         _ => None,
     }
@@ -554,6 +579,130 @@ impl Standin {
                 }
                 r
             }
+            "LREM" if arity(4) => {
+                let (r, empty) = match s.get_mut(&c[1]) {
+                    None => (int(0), false),
+                    Some(Entry { val: Val::List(l), .. }) => {
+                        let before = l.len();
+                        l.retain(|x| x != &c[3]);
+                        (int((before - l.len()) as i64), l.is_empty())
+                    }
+                    Some(_) => (wrongtype(), false),
+                };
+                if empty {
+                    s.remove(&c[1]);
+                }
+                r
+            }
+            "LTRIM" if arity(4) => {
+                let (Some(a), Some(b)) = (parse_i64(&c[2]), parse_i64(&c[3])) else { return err("ERR value is not an integer or out of range") };
+                let (r, empty) = match s.get_mut(&c[1]) {
+                    None => (ok(), false),
+                    Some(Entry { val: Val::List(l), .. }) => {
+                        let n = l.len() as i64;
+                        let norm = |x: i64| if x < 0 { (n + x).max(0) } else { x };
+                        let (a, b) = (norm(a), norm(b).min(n - 1));
+                        let kept: VecDeque<Vec<u8>> = if a > b { VecDeque::new() } else { l.iter().skip(a as usize).take((b - a + 1) as usize).cloned().collect() };
+                        *l = kept;
+                        (ok(), l.is_empty())
+                    }
+                    Some(_) => (wrongtype(), false),
+                };
+                if empty {
+                    s.remove(&c[1]);
+                }
+                r
+            }
+            "SADD" if arity(3) => {
+                let e = s.entry(c[1].clone()).or_insert(Entry { val: Val::Set(Default::default()), expire_at: None });
+                match &mut e.val {
+                    Val::Set(m) => int(c[2..].iter().filter(|x| m.insert((*x).clone())).count() as i64),
+                    _ => wrongtype(),
+                }
+            }
+            "SREM" | "SPOP" | "SCARD" | "SISMEMBER" if arity(2) => {
+                let (r, empty) = match s.get_mut(&c[1]) {
+                    None => (if name == "SPOP" { nil() } else { int(0) }, false),
+                    Some(Entry { val: Val::Set(m), .. }) => {
+                        let r = match name.as_str() {
+                            "SREM" => int(c[2..].iter().filter(|x| m.remove(*x)).count() as i64),
+                            "SPOP" => match m.iter().next().cloned() {
+                                Some(x) => {
+                                    m.remove(&x);
+                                    bulk(x)
+                                }
+                                None => nil(),
+                            },
+                            "SCARD" => int(m.len() as i64),
+                            _ => int(c.get(2).map(|x| m.contains(x)).unwrap_or(false) as i64),
+                        };
+                        (r, m.is_empty())
+                    }
+                    Some(_) => (wrongtype(), false),
+                };
+                if empty {
+                    s.remove(&c[1]);
+                }
+                r
+            }
+            "ZADD" if arity(4) => {
+                let Some(score) = parse_i64(&c[2]) else { return err("ERR value is not a valid float") };
+                let e = s.entry(c[1].clone()).or_insert(Entry { val: Val::ZSet(BTreeMap::new()), expire_at: None });
+                match &mut e.val {
+                    Val::ZSet(z) => int(z.insert(c[3].clone(), score).is_none() as i64),
+                    _ => wrongtype(),
+                }
+            }
+            "ZREM" | "ZPOPMIN" | "ZPOPMAX" | "ZCARD" | "ZREMRANGEBYRANK" | "ZREMRANGEBYSCORE" | "ZREMRANGEBYLEX" if arity(2) => {
+                let (r, empty) = match s.get_mut(&c[1]) {
+                    None => (if name.starts_with("ZPOP") { Resp::Arr(Array::Arr(vec![])) } else { int(0) }, false),
+                    Some(Entry { val: Val::ZSet(z), .. }) => {
+                        let r = match name.as_str() {
+                            "ZREM" => int(c[2..].iter().filter(|x| z.remove(*x).is_some()).count() as i64),
+                            "ZCARD" => int(z.len() as i64),
+                            "ZPOPMIN" | "ZPOPMAX" => {
+                                let pick = if name == "ZPOPMIN" { z.iter().min_by_key(|(m, sc)| (**sc, (*m).clone())).map(|(m, sc)| (m.clone(), *sc)) } else { z.iter().max_by_key(|(m, sc)| (**sc, (*m).clone())).map(|(m, sc)| (m.clone(), *sc)) };
+                                match pick {
+                                    Some((m, sc)) => {
+                                        z.remove(&m);
+                                        Resp::Arr(Array::Arr(vec![bulk(m), bulk(sc.to_string().into_bytes())]))
+                                    }
+                                    None => Resp::Arr(Array::Arr(vec![])),
+                                }
+                            }
+                            // the harness only uses the whole-range forms (0 -1 / -inf +inf / - +)
+                            _ => {
+                                let n = z.len();
+                                z.clear();
+                                int(n as i64)
+                            }
+                        };
+                        (r, z.is_empty())
+                    }
+                    Some(_) => (wrongtype(), false),
+                };
+                if empty {
+                    s.remove(&c[1]);
+                }
+                r
+            }
+            "EXPIREAT" | "PEXPIREAT" if arity(3) => {
+                // absolute unix times: anything before the year 2001 is in the past (the key is deleted at once),
+                // anything later is far beyond the run (the key stays)
+                let Some(n) = parse_i64(&c[2]) else { return err("ERR value is not an integer or out of range") };
+                let secs = if name == "EXPIREAT" { n } else { n / 1000 };
+                match s.get_mut(&c[1]) {
+                    None => int(0),
+                    Some(e) => {
+                        if secs < 1_000_000_000 {
+                            s.remove(&c[1]);
+                        } else {
+                            e.expire_at = now.checked_add(Duration::from_secs(1_000_000_000));
+                        }
+                        int(1)
+                    }
+                }
+            }
             "DUMP" if arity(2) => match s.get(&c[1]) {
                 None => nil(),
                 Some(e) => bulk(dump_val(&e.val)),
@@ -596,6 +745,13 @@ impl Standin {
                 drop(s);
                 self.scan(cursor, count)
             }
+            // two fixed scripts are understood (the stand-in has no Lua): delete / read KEYS[1]
+            "EVAL" if arity(4) && c[1] == b"return redis.call('del',KEYS[1])" => int(s.remove(&c[3]).is_some() as i64),
+            "EVAL" if arity(4) && c[1] == b"return redis.call('get',KEYS[1])" => match s.get(&c[3]) {
+                Some(Entry { val: Val::Str(v), .. }) => bulk(v.clone()),
+                None => nil(),
+                Some(_) => wrongtype(),
+            },
             "EVAL" | "EVALSHA" => bulk(b"EVAL-EXECUTED".to_vec()),
             "DBSIZE" => int(s.len() as i64),
             "FLUSHALL" | "FLUSHDB" => {
